@@ -329,4 +329,159 @@ example : queueTags (run (init 3) [.act (.push false), .act (.moveToDlq 1), .act
 -- a crash inside the DLQ move (before its single commit) leaves the message in the queue
 example : queueTags (run (init 3) [.act (.push false), .crash (.moveToDlq 1) 0]) = [0] := by decide
 
+/-! ## pairs of operations — the sequential reference of the statement-level interleaving suite
+
+  harness/props/c08.py runs two queue operations of two connections on the same message, one of them parked before each
+  of its SQL statements while the other runs completely, and requires the real outcome to be the outcome of ONE of the
+  two sequential orders `A;B` / `B;A` of this model (driver form `queue <m> <setup> <A> <B> <ab|ba>`, `showPairOrder`).
+  What that reference guarantees, for EVERY reachable state, every two op groups and both orders, is stated here; the
+  arbitration facts (`…_second_…`, `ack_excludes_move`, `move_excludes_ack`) are the model-level reason why the second of two
+  conflicting operations finds nothing: its DELETE matches no row.  (In the code that DELETE must be the FIRST statement
+  of the transaction — `DELETE … RETURNING` — for this to carry over to interleaved connections; the suite checks that.)
+-/
+
+theorem run_append (s : State) (a b : List Op) : run s (a ++ b) = run (run s a) b := by
+  simp [run, List.foldl_append]
+
+/-- the state `showPairOrder` prints is `run (run s a) b` resp. `run (run s b) a` -/
+theorem runGroup_state (s : State) (ops : List Op) : (runGroup s ops).2 = run s ops := by
+  induction ops generalizing s with
+  | nil => rfl
+  | cons op rest ih => simp only [runGroup, ih]; rfl
+
+/-- **Conservation after any two operation groups in either order**, from every reachable state: every pushed payload
+    is in exactly one of queue / DLQ / acknowledged, and nothing else is. -/
+theorem pair_conservation (m : Nat) (pre a b : List Op) (t : Nat) :
+    (places (run (run (run (init m) pre) a) b) t = if t < (run (run (run (init m) pre) a) b).nextTag then 1 else 0) ∧
+    (places (run (run (run (init m) pre) b) a) t = if t < (run (run (run (init m) pre) b) a).nextTag then 1 else 0) := by
+  have h1 := conservation m (pre ++ a ++ b) t
+  have h2 := conservation m (pre ++ b ++ a) t
+  rw [run_append, run_append] at h1 h2
+  exact ⟨h1, h2⟩
+
+/-- … and that is literally the state the driver's pair form prints -/
+theorem pair_conservation_printed (m : Nat) (pre a b : List Op) (t : Nat) :
+    let s := run (init m) pre
+    let sab := (runGroup (runGroup s a).2 b).2
+    let sba := (runGroup (runGroup s b).2 a).2
+    (places sab t = if t < sab.nextTag then 1 else 0) ∧ (places sba t = if t < sba.nextTag then 1 else 0) := by
+  simp only [runGroup_state]
+  exact pair_conservation m pre a b t
+
+/-- **One holder after any two protocol operation groups in either order.** -/
+theorem pair_one_holder (m : Nat) (pre a b : List Op)
+    (ok : ∀ op ∈ pre ++ a ++ b, isRaw op = false) (i : Nat) :
+    (liveOn (run (run (run (init m) pre) a) b) i).length ≤ 1 ∧
+    (liveOn (run (run (run (init m) pre) b) a) i).length ≤ 1 := by
+  have h1 := (no_claim_while_locked m (pre ++ a ++ b) ok i).1
+  have h2 := (no_claim_while_locked m (pre ++ b ++ a) (by
+    intro op hop
+    apply ok
+    simp only [List.mem_append] at hop ⊢
+    rcases hop with (h | h) | h
+    · exact Or.inl (Or.inl h)
+    · exact Or.inr h
+    · exact Or.inl (Or.inr h)) i).1
+  rw [run_append, run_append] at h1 h2
+  exact ⟨h1, h2⟩
+
+/-- **Two replays of one DLQ entry: one winner.** In ANY state the second `replay_dlq(d)` returns False and changes nothing. -/
+theorem replay_second_fails (s : State) (d : Nat) :
+    outOf (next s (.act (.replay d))) (.act (.replay d)) = .bool false ∧
+    next (next s (.act (.replay d))) (.act (.replay d)) = next s (.act (.replay d)) := by
+  have e : next s (.act (.replay d)) = replay s d := rfl
+  have e2 : ∀ s', next s' (.act (.replay d)) = replay s' d := fun _ => rfl
+  rw [e2, e2]
+  have key : (replay s d).dlq.find? (fun y => y.did == d) = none := by
+    unfold replay
+    cases h : s.dlq.find? (fun x => x.did == d) with
+    | none => simpa using h
+    | some x => simp [List.find?_eq_none]
+  refine ⟨?_, ?_⟩
+  · show Out.bool ((replay s d).dlq.any (fun x => x.did == d)) = Out.bool false
+    congr 1
+    rw [List.any_eq_false]
+    intro y hy hyd
+    exact absurd hyd (by simpa using (List.find?_eq_none.mp key) y hy)
+  · generalize replay s d = s1 at key
+    unfold replay
+    simp only [key]
+
+/-- **Two DLQ moves of one row (two sweeps, sweep + move_to_dlq): one DLQ entry.** The second move finds no row. -/
+theorem move_second_noop (s : State) (i : Nat) :
+    next (next s (.act (.moveToDlq i))) (.act (.moveToDlq i)) = next s (.act (.moveToDlq i)) := by
+  have e2 : ∀ s', next s' (.act (.moveToDlq i)) = moveToDlq s' i := fun _ => rfl
+  rw [e2, e2]
+  have key : (moveToDlq s i).rows.find? (fun r => r.id == i) = none := by
+    unfold moveToDlq
+    cases h : s.rows.find? (fun r => r.id == i) with
+    | none => simpa using h
+    | some x => simp [List.find?_eq_none]
+  generalize moveToDlq s i = s1 at key
+  unfold moveToDlq
+  simp only [key]
+
+/-- **Acknowledged, hence never parked.** After `ack` of row `i` a DLQ move of `i` (a sweep that SELECTed the row on its
+    final attempt) moves nothing. -/
+theorem ack_excludes_move (s : State) (w i : Nat) :
+    next (next s (.act (.ack w i))) (.act (.moveToDlq i)) = next s (.act (.ack w i)) := by
+  have e1 : next s (.act (.ack w i)) = ackRow s w i := rfl
+  have e2 : ∀ s', next s' (.act (.moveToDlq i)) = moveToDlq s' i := fun _ => rfl
+  rw [e2, e1]
+  have key : (ackRow s w i).rows.find? (fun r => r.id == i) = none := by
+    simp [ackRow, List.find?_eq_none]
+  unfold moveToDlq
+  simp only [key]
+
+/-- **Parked, hence not acknowledged.** After the DLQ move of row `i` an `ack` of `i` deletes nothing: queue, DLQ and
+    the acknowledged list stay as they are. -/
+theorem move_excludes_ack (s : State) (w i : Nat) :
+    let s1 := next s (.act (.moveToDlq i))
+    let s2 := next s1 (.act (.ack w i))
+    s2.rows = s1.rows ∧ s2.dlq = s1.dlq ∧ s2.acked = s1.acked := by
+  intro s1 s2
+  have e1 : s1 = moveToDlq s i := rfl
+  have e2 : s2 = ackRow s1 w i := rfl
+  have key : ∀ r ∈ s1.rows, r.id ≠ i := by
+    rw [e1]
+    unfold moveToDlq
+    cases h : s.rows.find? (fun r => r.id == i) with
+    | none =>
+      intro r hr hi
+      have := List.find?_eq_none.mp h r hr
+      simp [hi] at this
+    | some x =>
+      intro r hr
+      simp only [List.mem_filter, bne_iff_ne, ne_eq] at hr
+      exact hr.2
+  rw [e2]
+  refine ⟨?_, rfl, ?_⟩
+  · show s1.rows.filter (fun r => r.id != i) = s1.rows
+    rw [List.filter_eq_self]
+    intro r hr
+    simpa using key r hr
+  · show s1.acked ++ (s1.rows.filter (fun r => r.id == i)).map (·.tag) = s1.acked
+    have : s1.rows.filter (fun r => r.id == i) = [] := by
+      rw [List.filter_eq_nil_iff]
+      intro r hr
+      simpa using key r hr
+    simp [this]
+
+-- non-vacuity: a message held on its final attempt (queue limit 1); A = sweep, B = the holder's ack.  The two orders
+-- end in DIFFERENT places (parked vs acknowledged) — each in exactly one
+example :
+    let s := run (init 1) [.act (.push false), .act (.poll 1)]
+    dlqTags (run (run s [.act .sweep]) [.act (.ack 1 1)]) = [0] ∧ (run (run s [.act .sweep]) [.act (.ack 1 1)]).acked = [] ∧
+    dlqTags (run (run s [.act (.ack 1 1)]) [.act .sweep]) = [] ∧ (run (run s [.act (.ack 1 1)]) [.act .sweep]).acked = [0] ∧
+    places (run (run s [.act .sweep]) [.act (.ack 1 1)]) 0 = 1 ∧ places (run (run s [.act (.ack 1 1)]) [.act .sweep]) 0 = 1 := by
+  decide
+-- two sweeps of an exhausted row, two replays of one DLQ entry: one DLQ entry / one queue row in both orders
+example : dlqTags (run (run (run (init 1) [.act (.push false), .act (.poll 2), .act (.reschedule 2 1 false)]) [.act .sweep]) [.act .sweep]) = [0] := by
+  decide
+example : queueTags (run (run (run (init 3) [.act (.push false), .act (.moveToDlq 1)]) [.act (.replay 1)]) [.act (.replay 1)]) = [0]
+    ∧ outOf (run (init 3) [.act (.push false), .act (.moveToDlq 1), .act (.replay 1)]) (.act (.replay 1)) = .bool false := by
+  decide
+-- the driver's pair form on the first example (the harness's request for state exh-held-y, X = sweep, Y = ack):
+--   `queue 1 push:0;poll:1 sweep ack:1:1`  ↦  `n,ok#-#1.1.0.0.1#-#-|n,ok#-#-#-#0`
+
 end Stab.Props.C08
